@@ -75,6 +75,11 @@ claim("C09", "CFG dominance + per-path emitted-token sequences + nil-flow of com
       "Not covered: decoding by an independent client (byte-level), the 64 KiB threshold arithmetic, Content-Length versus bytes written, trailer values set after the head was encoded.",
       "DESIGN.md §4 C09")
 
+claim("C02", "CFG dominance/must-pass + sibling agreement of the three read loops + atomic-only + positivity proof of buffer lengths over go/ssa",
+      "Decides at the three read loops (poller sync loop, one-shot read task, gated read task): the data callback is guarded by n>0 and receives the connection and the [:n] re-slice of that very read; EINTR retries, EAGAIN leaves, other errors close and leave, a short count leaves, the iteration bound is the configured one; the one-shot task re-arms on every exit; every borrowed buffer is paid back; the async gate's shape (atomic-only counter, submit iff increment==1, over-count undone, exit only at 0); every buffer that reaches a kernel read is made with a provably positive length (normalised field / parameter / constant); the fd table has only its three writers and an identity-guarded removal; the UDP session map's lookup/insert/announce shape. One genuine defect found and repaired.",
+      "Not covered: the lost-edge race of the gate under all schedules, kernel ET/ONESHOT semantics, CPU usage at quiescence, datagram boundaries, the configuration matrix as executions.",
+      "DESIGN.md §4 C02")
+
 PENDING = "check not built yet in this round (static rule tables are being added property by property; see DESIGN.md §4 for the planned obligations)"
 for pid in ["C%02d" % i for i in range(1, 21)]:
     if pid not in PROPS:
